@@ -41,7 +41,8 @@ def entryOf (j : Json) : Entry :=
     | _ => []
   { ty := typeRefOf j, fields := fields,
     children := (j.getObjVal? "children").toOption.map specOf,
-    subtypes := (jArr j "subtypes").map (fun a => a.toList.map typeRefOf) }
+    subtypes := (jArr j "subtypes").map (fun a => a.toList.map typeRefOf),
+    extra := jBool j "extra", root := jBool j "root" }
 
 def parseNodeTypes (text : String) : Option NodeTypes :=
   match Json.parse text with
@@ -66,6 +67,7 @@ structure LangInfo where
   syms : Array (SymInfo × Nat) := #[]       -- with the real symbol_for_name answer
   probes : Array (Bool × List Nat × Nat) := #[]
   flds : Array (List Nat × Nat) := #[]      -- name, real field_id_for_name answer
+  sups : Array (Nat × List Nat) := #[]      -- supertype symbol, runtime subtypes (ts_language_subtypes)
   names : Array (List Nat) := #[]
   deriving Inhabited
 
@@ -142,12 +144,19 @@ def evalLang (exact : Bool) (id : String) (li : LangInfo) : String :=
       else if name != si.name then some s!"rust-kind-name id={k}" else none)).orElse fun _ =>
     (firstFail li.rfld.toList (fun (f, back) => if f == back then none else some s!"rust-field-roundtrip id={f}")).orElse fun _ =>
     (if li.rout == "0 0" || li.rout == "" then none else some s!"out-of-range-id-has-name {li.rout}")
+  let refOf (sym : Nat) : TypeRef :=
+    let si := (li.syms.getD sym (default, 0)).1
+    { kind := showName si.name, named := si.named }
+  let judgeSup := match li.nt with
+    | none => none
+    | some nt => firstFail li.sups.toList (fun (sym, subs) =>
+        if subtypesAgree nt (refOf sym) (subs.map refOf) then none else some s!"subtypes-of {(refOf sym).kind}")
   let modelNames := namesRoundTrip T
   let ntwf := match li.nt with | some nt => if ntWF nt then "ok" else "FAIL" | none => "MISSING"
   let r (o : Option String) := match o with | none => "ok" | some m => "FAIL " ++ m
   let total := (li.la.toList.map List.length).foldl (· + ·) 0
   s!"L-{id} tablewf={if wf then "ok" else "FAIL"} corr_la={r corrLa} corr_lookup={r corrLookup} corr_names={r corrNames} " ++
-  s!"judge_la={r judgeLa} judge_names={r judgeNames} model_names={modelNames} ntwf={ntwf} states={L.stateCount} large={L.largeStateCount} " ++
+  s!"judge_la={r judgeLa} judge_names={r judgeNames} judge_sup={r judgeSup} supertypes={li.sups.size} model_names={modelNames} ntwf={ntwf} states={L.stateCount} large={L.largeStateCount} " ++
   s!"symbols={L.symbolCount} aliases={li.aliasCount} fields={li.fieldCount} listed={total} entries={(li.nt.getD []).length}"
 
 def viaSuper (nt : NodeTypes) : VT → Nat
@@ -180,6 +189,11 @@ def evalTree (s : St) (stats : String) : String :=
         if listedName li.la li.names st name then none else some s!"state={st} name={showName name}")
       let acc := match acc1.orElse (fun _ => acc2) with | none => "ok" | some m => "FAIL not-listed " ++ m
       let vs := sumTree (viaSuper nt) root
+      let j := if j != "ok" then j
+        else if !rootMarked nt root then s!"FAIL node-types reason=root-not-marked type={root.ty.kind} tnamed={root.ty.named} path=[]"
+        else match extraUnmarked nt root with
+          | some ty => s!"FAIL node-types reason=extra-not-marked type={ty.kind} tnamed={ty.named} path=[]"
+          | none => "ok"
       s!"{s.tcase} judge={j} acc={acc} accpairs={s.accs.length + s.accn.size} viasuper={vs} {stats}"
     | _, none => s!"{s.tcase} judge=NONODETYPES"
     | _, _ => s!"{s.tcase} judge=BADTREE"
@@ -218,6 +232,9 @@ def step (s : St) (line : String) : IO St := do
       syms := li.syms.push ({ name := nm, visible := vis == "1", named := named == "1", supertype := sup == "1", pub := natOf pub }, natOf sfn),
       names := li.names.push nm })
   | ["probe", named, name, r] => return s.upd s.cur (fun li => { li with probes := li.probes.push (named == "1", bytesOfHex name, natOf r) })
+  | ["sup", sym, subs] =>
+    let l := if subs == "-" then [] else (subs.splitOn ",").map natOf
+    return s.upd s.cur (fun li => { li with sups := li.sups.push (natOf sym, l) })
   | ["fld", _, name, r] => return s.upd s.cur (fun li => { li with flds := li.flds.push (bytesOfHex name, natOf r) })
   | ["endlang", id] =>
     IO.println (evalLang s.exact id (s.langs.getD id {}))
